@@ -115,6 +115,29 @@ pub fn eds_op(op: &str, a: &[&str]) -> R {
             let b = unhex(a[0])?;
             sig_res(Signature::from_slice(&b))
         }
+        // the same through the OTHER import paths: key via `TryFrom<&[u8]>`, signature via `Signature::from_slice`
+        "vk_slice" => {
+            arity(a, 1)?;
+            let b = hx::<32>(a[0])?;
+            let vk = VerifyingKey::try_from(&b[..]).map_err(|_| Fail::Err)?;
+            let mut o = String::new();
+            push_hex(&mut o, vk.as_bytes());
+            push_bool(&mut o, vk.is_weak());
+            Ok(o)
+        }
+        "verify_slice" | "verify_strict_slice" => {
+            arity(a, 3)?;
+            let vkb = hx::<32>(a[0])?;
+            let msg = unhex(a[1])?;
+            let sigb = hx::<64>(a[2])?;
+            let sig = Signature::from_slice(&sigb[..]).map_err(|_| Fail::Err)?;
+            let vk = VerifyingKey::try_from(&vkb[..]).map_err(|_| Fail::Err)?;
+            if op == "verify_slice" {
+                unit(vk.verify(&msg, &sig))
+            } else {
+                unit(vk.verify_strict(&msg, &sig))
+            }
+        }
         "verify" | "verify_strict" => {
             arity(a, 3)?;
             let vkb = hx::<32>(a[0])?;
